@@ -66,7 +66,15 @@ func runWorker(e *Env, ses *workerlib.Session, maxprocs int, timeout time.Durati
 	} else {
 		cmd.Env = os.Environ()
 	}
+	if ses.SimProcs == 0 {
+		// configuration knob per worker process: what the library believes the parallelism to be
+		ses.SimProcs = []int{8, 1, 2, 4, 16}[ses.Worker%5]
+		if curSimProcs > 0 {
+			ses.SimProcs = curSimProcs
+		}
+	}
 	cmd.Env = append(cmd.Env,
+		fmt.Sprintf("VERIF_SIM_PROCS=%d", ses.SimProcs),
 		fmt.Sprintf("GOMAXPROCS=%d", maxprocs),
 		"GOTRACEBACK=single",
 		"GORACE=suppress_equal_stacks=0 suppress_equal_addresses=0 atexit_sleep_ms=0 halt_on_error=0 history_size=3 log_path="+logPrefix)
